@@ -6,10 +6,13 @@ correspondence: (1) every exported constant/factory of the library vs the model'
 search:         an INDEPENDENT plain-Python reference evaluator (written from the names/docstrings) vs p(x)."""
 import datetime
 import itertools
+import os
+import json
 import operator
 import re
 import uuid
 
+from common import HERE, vlib  # noqa: F401
 from common import call, code_of_call, enc, eval_codes, gen, main, rng_of
 
 import predicate as P
@@ -144,6 +147,32 @@ def correspondence(payload):
         mism += [{"case": "call semantics (non-numeric constant sort)", "p": d3[i][0], "x": d3[i][1], "model": c, "impl": exp3[i]}
                  for i, c in enumerate(codes) if c != exp3[i]]
         n3 += len(items)
+    # (4) is_tuple_of_p against Lemmas/TupleOf.v (a list-valued field: not a constructor of `pred`)
+    import ast as _ast
+    tsrc = _ast.unparse(_ast.parse(open(os.path.join(vlib.REPO, "predicate/tuple_of_predicate.py")).read()))
+    want_fp = json.load(open(os.path.join(HERE, "fingerprints", "c08_tuple_of.json"))).get("source") if os.path.exists(os.path.join(HERE, "fingerprints", "c08_tuple_of.json")) else None
+    if want_fp != tsrc:
+        mism.append({"case": "fingerprint", "file": "predicate/tuple_of_predicate.py", "note": "Lemmas/TupleOf.v was written against another text"})
+    comps = [SP.is_int_p, SP.is_str_p, SP.ge_p(2), SP.eq_p(1), SP.is_none_p, PP.always_false_p, SP.lt_p(3), SETP.in_p(1, 2)]
+    tvals = [(), (1,), (1, 2), (1, "a"), ("a", 1), (3, 3), (1, None), (None, 1), [1, 2], [1], {1: 2}, {3}, "ab", "", 5, None, (1, 2, 3), ("a", "b"), (2.5, 1)]
+    items, exp4, d4 = [], [], []
+    for k in (0, 1, 2, 3):
+        combos = list(itertools.product(comps, repeat=k))
+        if k == 3:
+            combos = rng.sample(combos, 60)
+        for ps_ in combos:
+            tp = SP.is_tuple_of_p(*ps_)
+            for x in tvals:
+                try:
+                    items.append("([" + "; ".join(cx.pred(q) for q in ps_) + "], " + cx.val(x) + ")")
+                except enc.Unencodable:
+                    continue
+                exp4.append(code_of_call(tp, x))
+                d4.append((repr(tp), repr(x)))
+    codes = eval_codes("c08d", "From PP Require Import Lemmas.TupleOf.\nOpen Scope Q_scope.\n", items,
+                       "Definition run (c : list pred * val) : nat := opt_bool_code (tuple_of_call W0 (fst c) (snd c)).", chunk=1500)
+    mism += [{"case": "is_tuple_of_p call semantics", "p": d4[i][0], "x": d4[i][1], "model": c, "impl": exp4[i]} for i, c in enumerate(codes) if c != exp4[i]]
+    n3 += len(items)
     return {"evaluations": n1 + n2 + n3, "distinct_nontrivial": len(set(d2)),
             "rule": "every exported constant/factory vs Lemmas/Std.v; p(x) vs the model's ev for ~330 atoms (every class, constants {0,1,2,3,5,2.5,True}, "
                     "all bound orders, empty/singleton/overlapping sets, type tests, quantified and 'of' forms) x a 44-value cross-type domain, plus "
